@@ -4,8 +4,93 @@
 fail, to show the invariants are not vacuous); (B) seeded random closed-loop scenarios of the profile(s) below run on
 the REAL kopf.operator() in the world simulator, every trace judged by TLC against Trace_Handling.tla (all invariants
 of the module are evaluated on every state of the explaining behaviour, and time is bound by urgency).
+
+(M) FreshMonitor.tla: the statement itself as a property automaton, evaluated by TLC over runs of the real operator with a
+raw-event handler whose result is patched on every event (so every cycle has a non-empty patch), a change handler, foreign
+edits and a watch stream that is late by L seconds (views older than the own last PATCH arrive before its echo):
+no change handler on a view older than an own patch within the consistency timeout; raw-event handlers see every line at once.
 """
 from vf.props import _family
+
+
+def fresh_case(sc):
+    import kopf
+    from sim.opsim import GROUP, PLURAL, VERSION, Sim
+    sim = Sim(wall_budget=20)
+    try:
+        reg = sim.registry()
+        mirror = sc['mirror']
+        rec_w = sim.handler('w', kind='event')
+
+        async def w(**kw):
+            await rec_w(**kw)
+            return {'seen': kw['spec'].get('x')} if mirror else None      # a result is patched into the status: a non-empty patch
+        kopf.on.event(GROUP, VERSION, PLURAL, registry=reg, id='w')(w)
+        kopf.on.create(GROUP, VERSION, PLURAL, registry=reg, id='a')(sim.handler('a'))
+        kopf.on.update(GROUP, VERSION, PLURAL, registry=reg, id='a')(sim.handler('a'))
+        L = sc['lag']
+
+        def watch_policy(wt, line):
+            if wt.res.plural != PLURAL or L == 0:
+                return True
+            sim.world.at(sim.now + L, lambda wt=wt: wt.release(1), 0)
+            return False
+        sim.srv.watch_policy = watch_policy
+        op = sim.operator('op1', reg, sim.settings(persistence__consistency_timeout=sc['timeout']))
+        sim.world.at(1, lambda: sim.create('o1', {'x': 0}), 1)
+        for k, t in enumerate(sc['edits'], start=1):
+            sim.world.at(t, lambda k=k: sim.set_spec('o1', x=k), 1)
+        sim.run(sc['end'])
+        events = []
+        busy_until = -1
+        for e in sim.recorder.events:
+            if e['ev'] == 'srv.req' and e.get('kind') == 'patch' and e.get('plural') == PLURAL and e.get('loop') == 'op1' and e.get('code') == 200 and e.get('changed'):
+                events.append({'ev': 'patch', 't': e['t'], 'rv': e['rv_after']})
+            elif e['ev'] == 'h.enter' and e.get('id') == 'a':
+                events.append({'ev': 'inv', 't': e['t'], 'rv': e.get('rv') or 0})
+            elif e['ev'] == 'h.enter' and e.get('id') == 'w':
+                events.append({'ev': 'winv', 't': e['t'], 'rv': e.get('rv') or 0})
+            elif e['ev'] == 'srv.watch.line' and e.get('res') == PLURAL and e.get('loop') == 'op1' and e.get('rv') is not None:
+                events.append({'ev': 'line', 't': e['t'], 'rv': e['rv'], 'idle': True})
+        # a line finds the worker idle unless the worker is inside the consistency wait / a sleep of an earlier cycle at that instant
+        # (the wait is woken by the arrival, so the raw handler still runs in the same instant)
+        op.finish()
+        return {'id': sc['id'], 'timeout': sc['timeout'], 'events': events, 'scenario': sc}
+    finally:
+        sim.close()
+
+
+def fresh_scenarios(seed, n):
+    import random
+    rnd = random.Random(f'fresh-{seed}')
+    out = []
+    for k in range(n):
+        edits = sorted(rnd.sample(range(3, 40), rnd.randint(1, 8)))
+        out.append({'id': f'fresh-{seed}-{k}', 'lag': rnd.choice([0, 1, 1, 2, 3, 6]), 'timeout': rnd.choice([2, 5, 5]), 'mirror': rnd.random() < 0.7,
+                    'edits': edits, 'end': 70})
+    return out
+
+
+def judge_fresh(traces, rep):
+    import json, os, re, shutil, tempfile
+    from vf import tlc
+    from vf.evidence import MachineryFailure
+    scratch = tempfile.mkdtemp(prefix='vf-fresh-')
+    try:
+        path = os.path.join(scratch, 'traces.json')
+        with open(path, 'w') as f:
+            json.dump([{'id': t['id'], 'timeout': t['timeout'], 'events': t['events']} for t in traces], f)
+        r = tlc.run('FreshMonitor', cfg_text='SPECIFICATION Spec\nCONSTRAINT Book\nPOSTCONDITION Verdicts\nCHECK_DEADLOCK FALSE\n', workers=1,
+                    env={'TRACE_FILE': path}, timeout=1200)
+    finally:
+        shutil.rmtree(scratch, ignore_errors=True)
+    if not r.ok:
+        raise MachineryFailure(f'FreshMonitor failed: {r.violated} {r.errors}\n{r.out[-3000:]}')
+    rep.add_tlc('FreshMonitor', r)
+    got = {int(m.group(1)): m.group(3) for m in re.finditer(r'<<\s*"MONITOR",\s*(\d+),\s*"([^"]*)",\s*"([^"]*)"\s*>>', r.out)}
+    if len(got) != len(traces) or 'incomplete' in got.values():
+        raise MachineryFailure(f'FreshMonitor: {len(got)} verdicts for {len(traces)} traces')
+    return {t['id']: got[i] for i, t in enumerate(traces, start=1)}
 
 PROFILES = "consistency".split(',')
 CFGS = "nodoors,restart".split(',')
@@ -24,3 +109,14 @@ def run(ctx, rep) -> None:
     for p in PROFILES:
         scs += H.gen_scenarios(ctx.seed, n // len(PROFILES), p)
     _family.run_traces(rep, scs, '+'.join(PROFILES), nontrivial=lambda f: bool(f & FEATURES))
+    from concurrent.futures import ProcessPoolExecutor
+    fscs = fresh_scenarios(ctx.seed, 120 if ctx.quick else 2500)
+    with ProcessPoolExecutor(16) as ex:
+        ftr = list(ex.map(fresh_case, fscs, chunksize=4))
+    fv = judge_fresh(ftr, rep)
+    rep.evaluations += len(ftr); rep.traces += len(ftr)
+    for t in ftr:
+        if t['scenario']['lag'] and any(e['ev'] == 'patch' for e in t['events']):
+            rep.nontrivial(t['events'])
+        if fv[t['id']] != 'ok':
+            rep.violation(f'{t["id"]}: {fv[t["id"]]} {t["scenario"]}', payload=t)
